@@ -14,6 +14,11 @@ use std::{
 #[cfg_attr(docsrs, doc(cfg(feature = "serde1")))]
 pub mod serde;
 
+/// The longest delay a deadline timer is armed with. tokio-util's `DelayQueue` panics when asked
+/// for a delay beyond its range of roughly 2.18 years, so a deadline further away than this is
+/// enforced at this horizon instead.
+pub(crate) const MAX_TIMER_DELAY: Duration = Duration::from_secs(365 * 24 * 60 * 60);
+
 /// Extension trait for [Instants](Instant) in the future, i.e. deadlines.
 pub trait TimeUntil {
     /// How much time from now until this time is reached.
